@@ -9,7 +9,8 @@ against `Model.Debiasers`) and `isimip_corr` (real `_apply_on_window`, steps 3-7
 modest budget, restricted to the configurations the property speaks about.
 Property oracle on the real code with the REAL scipy distributions (`from_variable` / `for_precipitation`): gamma-mixture
 precipitation on the eight debiasers, beta / uniform / Weibull data on the six other bounded ISIMIP variables, windows
-on and off; the statement's inequalities are checked with exact float comparisons.
+on and off; the statement's inequalities are checked with exact float comparisons.  Single locations through `apply_location`
+and small grids through the public `apply` (serial / parallel, failsafe, time encodings, memory layouts, construction order).
 """
 import datetime
 import logging
@@ -23,8 +24,11 @@ from harness import common as C
 
 PROP = "C10"
 TARGETS = ["IbicusModel.Props.C10", "IbicusModel.Lemmas.GenDebiasers", "IbicusModel.Lemmas.GenIsimipFreq",
-           "IbicusModel.Lemmas.GenIsimipVars"]
-GEN = ["Debiasers", "IsimipFreq", "IsimipVars"]
+           "IbicusModel.Lemmas.GenIsimipVars", "IbicusModel.Lemmas.GenIsimipSteps",
+           "IbicusModel.Lemmas.GenIsimipSteps2"]  # Steps2: step 1 / step 8 (annual cycle of upper bounds, rsds) regenerated = model
+GEN = ["Debiasers", "IsimipFreq", "IsimipVars", "IsimipSteps"]  # IsimipSteps: per-element logic of steps 2-7 (tier A)
+TARGETS += ["IbicusModel.Lemmas.GenDebWinSdm"]  # tier A of SDM relative (`_apply_on_window_relative_sdm` denotes Model.Debiasers.sdmRelative) and CDFt SSR with one draw list
+GEN += ["DebWin"]  # Gen.DebWin: dataflow programs extracted by translator/extract_debiasers.py
 
 DAY = 86400.0
 THR_ISIMIP = 0.1 / DAY  # lower_threshold of ISIMIP pr, pr_lower_threshold of SDM, censoring threshold of QM censored
@@ -387,8 +391,9 @@ def gen_case(rng, name, var, mode, tier, long_future=False, regime=None):
     return case
 
 
-def build_inputs(case):
-    nprs = np.random.RandomState(case["case_seed"])
+def build_inputs(case, dates=None, data_seed=None):
+    """dates / data_seed: a further grid cell of the same case — the same time axes, values from another seed"""
+    nprs = np.random.RandomState(case["case_seed"] if data_seed is None else data_seed)
     n = 365 * case["years"] + nprs.randint(0, 40)
     y0 = 1960 + int(nprs.randint(0, 40))
     tO = dates_from(y0, n, int(nprs.randint(0, 200)))
@@ -402,6 +407,10 @@ def build_inputs(case):
         tO, tH, tF = span(y0, case["years"]), span(y0, case["years"]), span(2040 + 4 * int(nprs.randint(0, 5)), case["years"])
         if case.get("lookup_path"):  # obs without a leap day: the sets of days of year differ (step 1 takes the lookup path)
             tO = span(1961 + 4 * int(nprs.randint(0, 8)), 3)
+    if case.get("dates_from_1950"):  # the axes the library infers when no time arrays are passed: consecutive days from 1950-01-01
+        tO, tH, tF = dates_from(1950, tO.size), dates_from(1950, tH.size), dates_from(1950, tF.size)
+    if dates is not None:
+        tO, tH, tF = dates
     var = case["variable"]
     if var == "pr":
         series = [gen_pr(nprs, t.size, case["pdry"][k], case["shape"][k], case["scale"][k], case["drizzle"], case["at_threshold"],
@@ -423,23 +432,34 @@ def build_inputs(case):
     return series, (tO, tH, tF)
 
 
-def judge(deb, case, series, dates, np_seed, info):
-    """one apply of `deb` on the inputs, judged against the settings `deb` has NOW -> (status, problems)"""
+def inside_quantifier(deb, case, series, dates, info):
+    """the quantifier's guard on one location: enough wet (pr) / in-threshold (bounded ISIMIP variable) values in every window"""
     o, h, f = series
     tO, tH, tF = dates
     name, var, mode = case["debiaser"], case["variable"], case["mode"]
     if var == "pr":
         thr = max([THR_ISIMIP, THR_QDM] + [float(getattr(deb, a)) for a in ("lower_threshold", "censoring_threshold", "pr_lower_threshold")
                                            if hasattr(deb, a)])
-        info["min_wet_per_window"] = min_wet_per_window(deb, mode, [(o, tO), (h, tH), (f, tF)], thr)
+        info["min_wet_per_window"] = min(info.get("min_wet_per_window", 10**9), min_wet_per_window(deb, mode, [(o, tO), (h, tH), (f, tF)], thr))
         if info["min_wet_per_window"] < MIN_WET:
-            return "outside", []  # not enough wet values in some window: outside the quantifier
+            return False  # not enough wet values in some window: outside the quantifier
     elif name == "ISIMIP" and var not in ("rsds",):
         lt, ut = float(deb.lower_threshold), float(deb.upper_threshold)
         ind = [np.where((x > lt) & (x < ut), 1.0, 0.0) for x in (o, h, f)]
-        info["min_between_per_window"] = min_wet_per_window(deb, mode, [(ind[0], tO), (ind[1], tH), (ind[2], tF)], 0.5)
+        info["min_between_per_window"] = min(info.get("min_between_per_window", 10**9),
+                                             min_wet_per_window(deb, mode, [(ind[0], tO), (ind[1], tH), (ind[2], tF)], 0.5))
         if info["min_between_per_window"] < MIN_WET:
-            return "outside", []
+            return False
+    return True
+
+
+def judge(deb, case, series, dates, np_seed, info):
+    """one apply of `deb` on the inputs, judged against the settings `deb` has NOW -> (status, problems)"""
+    o, h, f = series
+    tO, tH, tF = dates
+    name, var, mode = case["debiaser"], case["variable"], case["mode"]
+    if not inside_quantifier(deb, case, series, dates, info):
+        return "outside", []
     out, exc, msgs = run_real(deb, o, h, f, tO, tH, tF, np_seed)
     info["n_out"] = None if out is None else int(out.size)
     if exc is not None:
@@ -504,6 +524,8 @@ def add_low_quantile_probes(deb, series, nprs, n_probes):
 
 def run_case(case):
     """-> (status, problems, info); status in ok | outside | exception"""
+    if case.get("grid"):
+        return run_grid_case(case)
     series, dates = build_inputs(case)
     name, var, mode = case["debiaser"], case["variable"], case["mode"]
     deb = make_debiaser(name, mode, var, fast=case.get("fast_windows", True), delta_shift=case.get("delta_shift", "additive"),
@@ -540,6 +562,204 @@ def replay(data):
         print("VIOLATION-REPLAYED:", p)
     print("replay:", status, info)
     return 1 if problems else 0
+
+
+# ------------------------------------------------------------------ the public grid entry point `apply`
+# The statement speaks about "the output" of each debiaser; the quantifier ranges over inputs AND configurations.  What a user
+# receives is what the PUBLIC entry point `Debiaser.apply(obs, cm_hist, cm_future, ...)` returns for a (time, x, y) grid, so the
+# oracle also drives that entry point the ways a user legitimately can and judges EVERY cell of the returned array with the same
+# exact comparisons as a single location.  Covered dimensions of "for all inputs / configurations" (each met several times per run):
+#   grid shape      wide (more columns than rows), tall, square, single row / column / cell
+#   dispatch        serial (with and without progress bar) and parallel=True with 1, 2, 3, 5 or the default number of processes
+#   failsafe        off and on (a cell that comes back NaN under failsafe is a NaN in the output all the same)
+#   time encoding   python date / datetime, numpy datetime64[D|h|s|ns], a date type without .timetuple, and no time arrays at all
+#   memory layout   C, Fortran, stored [x,y,t] / [y,x,t] and moved to time-first, strided views; masked arrays without masked cells
+#   construction    keyword arguments, attributes assigned after construction, a pickled copy, a deep copy
+GRID_SHAPES = {"wide": [(1, 2), (1, 3), (2, 3), (1, 4), (2, 4), (2, 5), (3, 4)], "tall": [(2, 1), (3, 1), (3, 2), (4, 1), (4, 2), (5, 2), (4, 3)],
+               "square": [(1, 1), (2, 2), (2, 2), (3, 3)]}
+GRID_TIMES = ("date", "M8D", "datetime", "M8ns", "none", "plain", "M8s", "M8h")
+GRID_CONSTRUCT = ("kwargs", "kwargs", "assign-after", "pickled", "deepcopy")
+WINDOW_ATTRS = ("running_window_mode", "running_window_length", "running_window_step_length", "running_window_mode_over_years_of_cm_future")
+GRID_CHEAP = ("LinearScaling", "DeltaChange")
+
+
+def gen_grid_case(rng, name, var, mode, tier, k, offsets):
+    """k = running number of the grid case in this run: orientation, dispatch, failsafe and time encoding are cycled (offsets
+    drawn once per run) so that every run meets each of them with every other one; the rest is drawn"""
+    case = gen_case(rng, name, var, mode, tier)
+    case["years"] = 3 if tier == "quick" else rng.choice([3, 4])
+    case["fast_windows"] = True
+    if var == "pr":  # well inside the quantifier in every cell
+        case["pdry"] = [round(min(p, 0.6), 3) for p in case["pdry"]]
+        if case.get("regime") == "monsoon":
+            case["years"] = 4
+    max_cells = (12 if name in GRID_CHEAP else 6) if tier != "quick" else (8 if name in GRID_CHEAP else 4)
+    orient = ("wide", "tall", "square")[(k // 2 + offsets[0]) % 3]
+    shape = rng.choice([sh for sh in GRID_SHAPES[orient] if sh[0] * sh[1] <= max_cells])
+    parallel = (k + offsets[1]) % 2 == 0
+    time_kind = GRID_TIMES[(k + offsets[2]) % len(GRID_TIMES)]
+    from harness import gridprobes as G
+
+    case["grid"] = {"shape": list(shape), "dispatch": "parallel" if parallel else "serial",
+                    "nr_processes": rng.choice([1, 2, 2, 3, 5, None]) if parallel else None,
+                    "failsafe": ((k + 1) // 2 + offsets[3]) % 2 == 1, "progressbar": (not parallel) and rng.random() < 0.3,
+                    "time": time_kind, "layouts": [rng.choice(G.LAYOUTS) for _ in range(3)],
+                    "container": rng.choice(["ndarray", "ndarray", "ndarray", "masked"]), "construct": rng.choice(GRID_CONSTRUCT),
+                    "cell_seeds": [rng.randint(0, 2**31 - 2) for _ in range(shape[0] * shape[1])]}
+    if time_kind == "none":
+        case["dates_from_1950"] = True
+    return case
+
+
+def build_grid_inputs(case):
+    """-> ([obs, cm_hist, cm_future] as (t, x, y) float64 arrays, (tO, tH, tF), per-cell series)"""
+    nx, ny = case["grid"]["shape"]
+    _, dates = build_inputs(case)
+    cells = [build_inputs(case, dates=dates, data_seed=sd)[0] for sd in case["grid"]["cell_seeds"]]
+    arrs = [np.stack([c[k] for c in cells], axis=1).reshape(dates[k].size, nx, ny) for k in range(3)]
+    return arrs, dates, cells
+
+
+def grid_debiasers(case):
+    """-> (the debiaser handed to apply, built the way the case says; factory of plainly built twins for guards / references)"""
+    import copy
+    import pickle
+
+    name, var, mode = case["debiaser"], case["variable"], case["mode"]
+
+    def mk(m=mode):
+        return make_debiaser(name, m, var, fast=case.get("fast_windows", True), delta_shift=case.get("delta_shift", "additive"),
+                             year_windows=case.get("year_windows"), parametric=bool(case.get("parametric")))
+
+    how = case["grid"]["construct"]
+    deb = mk()
+    if how == "assign-after":  # built with the other window settings, the wanted ones assigned as attributes afterwards
+        plain, deb = deb, mk("nowin" if mode == "win" else "win")
+        for a in WINDOW_ATTRS:
+            if hasattr(plain, a):
+                setattr(deb, a, getattr(plain, a))
+    elif how == "pickled":
+        deb = pickle.loads(pickle.dumps(deb))
+    elif how == "deepcopy":
+        deb = copy.deepcopy(deb)
+    return deb, mk
+
+
+def grid_label(case):
+    g = case["grid"]
+    disp = f"parallel=True, nr_processes={g['nr_processes'] if g['nr_processes'] is not None else 'default'}" if g["dispatch"] == "parallel" \
+        else f"serial, progressbar={g['progressbar']}"
+    return (f"{case['debiaser']}[{case['variable']}, {case['mode']}].apply on a {g['shape'][0]} x {g['shape'][1]} grid ({disp}, failsafe={g['failsafe']}, "
+            f"time arrays: {g['time']}, layouts {'/'.join(g['layouts'])}, {g['container']}, debiaser built by {g['construct']})")
+
+
+def call_apply(deb, case, arrs, dates, np_seed):
+    """the real `apply` -> (array | None, 'ExceptionClass: text' | None, log messages of this process)"""
+    import contextlib
+    import os
+
+    from harness import gridprobes as G
+    from harness import probes as P
+
+    g = case["grid"]
+    args = [G.relayout(a, lay) for a, lay in zip(arrs, g["layouts"])]
+    if g["container"] == "masked":
+        args = [np.ma.masked_array(a) for a in args]
+    kw = {} if g["time"] == "none" else {key: P.present(t, g["time"]) for key, t in zip(("time_obs", "time_cm_hist", "time_cm_future"), dates)}
+    if g["nr_processes"] is not None:
+        kw["nr_processes"] = g["nr_processes"]
+    lg = logging.getLogger("ibicus")
+    cap = Capture()
+    old_level, old_prop = lg.level, lg.propagate
+    lg.addHandler(cap)
+    lg.setLevel(logging.WARNING)
+    lg.propagate = False
+    try:
+        with warnings.catch_warnings(), np.errstate(all="ignore"), open(os.devnull, "w") as devnull, contextlib.redirect_stderr(devnull):
+            warnings.simplefilter("ignore")
+            np.random.seed(np_seed)
+            try:
+                out = deb.apply(*args, progressbar=g["progressbar"], parallel=(g["dispatch"] == "parallel"), failsafe=g["failsafe"], **kw)
+                return out, None, cap.msgs
+            except Exception as ex:  # noqa: BLE001
+                return None, f"{type(ex).__name__}: {str(ex)[:120]}", cap.msgs
+    finally:
+        lg.removeHandler(cap)
+        lg.setLevel(old_level)
+        lg.propagate = old_prop
+
+
+def cell_alone(mk, series, dates, np_seed):
+    """one cell on its own through apply_location on a plainly built instance -> (None | 'unadjusted' | 'exception: ...', output)
+    (decides whether a suspicious cell of a grid run is inside the quantifier: log messages of pool workers do not reach this process)"""
+    out = None
+    for s in (np_seed, np_seed + 1):
+        out, exc, msgs = run_real(mk(), *series, *dates, s)
+        if exc is not None:
+            return "exception: " + exc, None
+        if any("no pseudo-future observations" in m for m in msgs):
+            return "unadjusted", out
+    return None, out
+
+
+def run_grid_case(case):
+    """-> (status, problems, info) like run_case"""
+    g = case["grid"]
+    name, var = case["debiaser"], case["variable"]
+    nx, ny = g["shape"]
+    arrs, dates, cells = build_grid_inputs(case)
+    deb, mk = grid_debiasers(case)
+    plain = mk()
+    info = {"cells": nx * ny}
+    for series in cells:
+        if not inside_quantifier(plain, case, series, dates, info):
+            return "outside", [], info
+    seed = case["case_seed"] % (2**31 - 1)
+    out, exc, msgs = call_apply(deb, case, arrs, dates, seed)
+    label = grid_label(case)
+    if exc is not None:
+        alone = [cell_alone(mk, series, dates, seed)[0] for series in cells]
+        if any(a and a.startswith("exception") for a in alone):  # the data, not the dispatch: as for a single location
+            info["exception"] = exc + " (a cell on its own: " + next(a for a in alone if a and a.startswith("exception")) + ")"
+            return "exception", [], info
+        return "ok", [("grid-exception", f"{label} raised {exc}, although apply_location returns a result for each of the {nx * ny} cells on its own: "
+                       "no output at all for a valid input")], info
+    if any("no pseudo-future observations" in m for m in msgs) and var != "rsds":
+        info["unadjusted_path"] = True
+        return "outside", [], info
+    want = (arrs[0] if name == "DeltaChange" else arrs[2]).shape
+    info["n_out"] = int(np.size(out))
+    if not isinstance(out, np.ndarray) or out.shape != want:
+        return "ok", [("grid-shape", f"{label} returned {type(out).__name__} of shape {getattr(out, 'shape', None)}, expected an array of shape {want}")], info
+    outf = np.asarray(out, dtype=float)
+    info["zeros"] = int((outf == 0).sum())
+    info["at_lower_bound"] = int((outf == float(getattr(plain, "lower_bound", 0.0))).sum()) if name == "ISIMIP" else None
+    info["at_upper_bound"] = int((outf == float(plain.upper_bound)).sum()) if name == "ISIMIP" else None
+    problems, tF, skipped = [], dates[2], 0
+    for c, series in enumerate(cells):
+        i, j = divmod(c, ny)
+        col = outf[:, i, j]
+        bad = check_pr(name, plain, col, series) if var == "pr" else []
+        if name == "ISIMIP":
+            bad += check_isimip(plain, var, col)
+        if not bad:
+            continue
+        alone, out1 = cell_alone(mk, series, dates, seed)
+        if alone == "unadjusted":
+            skipped += 1
+            continue
+        if alone is not None:
+            info["exception"] = f"cell ({i}, {j}) on its own: {alone}"
+            return "exception", [], info
+        never = " (the whole cell is NaN: never computed / never written)" if np.isnan(col).all() else ""
+        bad1 = (check_pr(name, plain, out1, series) if var == "pr" else []) + (check_isimip(plain, var, out1) if name == "ISIMIP" else [])
+        ref = "apply_location on this cell alone " + ("violates the statement as well" if bad1 else "returns a result inside the statement's range")
+        for kind, msg, idx in bad:
+            day = f", date {tF[idx]}" if name != "DeltaChange" and idx < tF.size else ""
+            problems.append((kind, f"{label}: cell ({i}, {j}){never}: {msg}; first at index {idx}{day} "
+                                   f"(input cm_future {series[2][min(idx, series[2].size - 1)]!r}); {ref}"))
+    info["cells_outside_quantifier"] = skipped
+    return "ok", problems, info
 
 
 # ------------------------------------------------------------------ tier B for Model.IsimipSession (apply - assign - apply)
@@ -641,6 +861,10 @@ def run(tier, res, force_search=False):
         "float rounding is not modelled; the oracle compares the real outputs with the bound / threshold constants exactly",
         "instance reuse: in apply - assign - apply sequences every apply is judged against the public settings the object has at that apply",
         "ISIMIP's default window configuration (31 / 1) is run over whole calendar years incl. leap years; a never-assigned day (NaN under the hook) is a failing input",
+        "grid cases: the public `apply` on small (t, x, y) grids (wide / tall / square; serial and parallel; failsafe off and on; every accepted time "
+        "encoding or none; C / F / transposed-storage / strided layouts, mask-free masked arrays; debiaser built by keywords, by attribute assignment, "
+        "as a pickled or deep copy); every cell of the returned array is judged like a single location, a cell never written (NaN under the hook) or an "
+        "exception of `apply` on a grid whose cells all work on their own is a failing input; cells the 'left unadjusted' path touches are skipped",
     ]
     lean_ok = C.lean_phase(res, PROP, GEN, TARGETS)
     res.extra["t_lean_s"] = round(time.time() - t0, 1)
@@ -678,7 +902,14 @@ def run(tier, res, force_search=False):
     if force_search or not lean_ok or res.tie_broken:
         reps *= 3
     plan = []
+    GRID_ROT = ("QuantileMapping-hurdle", "CDFt", "QuantileDeltaMapping", "ScaledDistributionMapping", "QuantileMapping-censored",
+                "QuantileDeltaMapping-forpr", "ScaledDistributionMapping-forpr", "QuantileMapping-fromvar")
     for r in range(reps):
+        # the public grid entry point `apply` (serial / parallel, failsafe, time encodings, layouts, construction order); first in the
+        # repetition so that the time budget never drops them
+        plan += [(GRID_CHEAP[r % 2], "pr", ("win", "nowin")[(r // 2) % 2], "grid"), (GRID_ROT[r % len(GRID_ROT)], "pr", ("nowin", "win")[r % 2], "grid"),
+                 (GRID_ROT[(r + 4) % len(GRID_ROT)], "pr", ("win", "nowin")[r % 2], "grid"),
+                 ("ISIMIP", "pr", ("win", "nowin")[r % 2], "grid"), ("ISIMIP", ISIMIP_VARS[r % len(ISIMIP_VARS)], ("nowin", "win")[r % 2], "grid")]
         for name in PR_DEBIASERS:
             for mode in ("win", "nowin"):
                 plan.append((name, "pr", mode))
@@ -707,14 +938,23 @@ def run(tier, res, force_search=False):
         for j, var in enumerate(("hurs", "prsnratio", "tasskew")):
             plan.append(("ISIMIP", var, ("nowin", "win")[(r + j) % 2], "near-bound"))
     problems_all, stats, oracle_samples = [], {}, []
+    rng_grid = random.Random(C.seed() * 1000003 + 1010)  # its own stream: the single-location cases of a seed stay what they were
+    n_grid, grid_offsets = 0, [rng_grid.randint(0, 23) for _ in range(4)]
     budget_s = 75 if tier == "quick" else 450
     for k, (name, var, mode, *rest) in enumerate(plan):
         if time.time() - t2 > budget_s * (3 if (force_search or not lean_ok or res.tie_broken) else 1):
             res.notes.append(f"oracle stopped after {k} of {len(plan)} planned cases (time budget)")
             break
         tag = rest[0] if rest else None
-        case = gen_case(rng, name, var, mode, tier, long_future=(tag == "long"), regime=(tag if tag in ("monsoon", "near-bound", "default-windows", "sequence", "bell", "polar") else None))
+        if tag == "grid":
+            case = gen_grid_case(rng_grid, name, var, mode, tier, n_grid, grid_offsets)
+            n_grid += 1
+        else:
+            case = gen_case(rng, name, var, mode, tier, long_future=(tag == "long"), regime=(tag if tag in ("monsoon", "near-bound", "default-windows", "sequence", "bell", "polar") else None))
+        t_case = time.time()
         status, problems, info = run_case(case)
+        if tag == "grid":
+            res.extra["t_oracle_grid_apply_s"] = round(res.extra.get("t_oracle_grid_apply_s", 0.0) + time.time() - t_case, 1)
         key = f"{name}/{var}/{mode}" + (f"/{tag}" if tag else "")
         st = stats.setdefault(key, {"ok": 0, "outside": 0, "exception": 0, "violations": 0})
         st[status] += 1
@@ -723,7 +963,8 @@ def run(tier, res, force_search=False):
         if status == "ok":
             mixed = bool(info.get("zeros")) or bool(info.get("at_lower_bound")) or bool(info.get("at_upper_bound"))
             sig = tuple(round(x, 1) for x in case.get("pdry", case.get("bias", [])))
-            res.count((name, var, mode, sig), mixed)
+            res.count((name, var, mode, sig) + ((tuple(case["grid"]["shape"]), case["grid"]["dispatch"], case["grid"]["failsafe"], case["grid"]["time"])
+                                                if case.get("grid") else ()), mixed)
             if k % 7 == 0 and len(oracle_samples) < 4:
                 oracle_samples.append({**case, **info})
         for kind, p in problems:
